@@ -36,6 +36,15 @@ def imageErased (typ romSize ramSize len erase : Nat) : Image :=
       else if i = 0x149 then (if erase = 0 then 0xff else ramSize)
       else if i / 0x4000 ≥ erase then 0xff else sig (i / 0x4000) (i % 0x4000) }
 
+/-- ... and, if `dup`, with every page repeating the header area 0104–0133 of page 0 -/
+def imageVariant (typ romSize ramSize len erase : Nat) (dup : Bool) : Image :=
+  let base := imageErased typ romSize ramSize len erase
+  if !dup then base else
+  { len := len,
+    byte := fun i =>
+      if i ≥ 0x4000 ∧ 0x104 ≤ i % 0x4000 ∧ i % 0x4000 < 0x134 ∧ (i / 0x4000) * 0x4000 + 0x134 ≤ len then base.byte (i % 0x4000)
+      else base.byte i }
+
 def doResetImg (img : Image) : Option Mbc × String :=
   match construct img with
   | some c => (some c, "ok")
@@ -53,6 +62,9 @@ def step (s : Option Mbc) (w : List String) : Option Mbc × String :=
       | _, _, _, _ => (s, "bad-op")
   | ["reset", t, rs, ras, len, er] => match parseHex t, parseHex rs, parseHex ras, parseHex len, parseHex er with
       | some t, some rs, some ras, some len, some er => doResetImg (imageErased t rs ras len er)
+      | _, _, _, _, _ => (s, "bad-op")
+  | ["reset", t, rs, ras, len, er, dup] => match parseHex t, parseHex rs, parseHex ras, parseHex len, parseHex er with
+      | some t, some rs, some ras, some len, some er => doResetImg (imageVariant t rs ras len er (dup == "1"))
       | _, _, _, _, _ => (s, "bad-op")
   | _ =>
     match s with
